@@ -347,7 +347,7 @@ impl RandGen {
         let wb = self.cfg.weak_bias;
         let cb = self.cfg.consume_bias;
         // weighted menu
-        let menu: [(u32, u8); 22] = [
+        let menu: [(u32, u8); 23] = [
             (if alive.len() < self.cfg.max_objs { 7 } else { 0 }, 0), // new
             (6, 1),                                                   // clone
             (9, 2),                                                   // drop
@@ -370,6 +370,7 @@ impl RandGen {
             (cb, 19),                                                 // decrement_strong_count
             (if self.adopts_allowed() && class != Class::Full { 1 } else { 0 }, 20), // same-handle self adoption
             (3, 21),                                                  // upgrade + immediate drop (probe)
+            (if self.adopts_allowed() { 4 } else { 0 }, 22),         // link 2-4 objects into a fully recorded ring
         ];
         let total: u32 = menu.iter().map(|m| m.0).sum();
         let mut r = (self.rng.next() % total as u64) as u32;
@@ -394,7 +395,28 @@ impl RandGen {
                 let &s = self.rng.pick(&prog)?;
                 let t = w.htarget[s];
                 let owners = if self.rng.chance(9, 10) || alive.len() == reachable_alive.len() { &reachable_alive } else { &alive };
-                let &o = self.rng.pick(owners)?;
+                // bias towards closing cycles: prefer an owner that the stored target already
+                // reaches through stored handles (so that owner -> target closes a cycle)
+                let mut o = *self.rng.pick(owners)?;
+                if self.rng.chance(1, 2) && w.objs[t as usize].state == St::Alive {
+                    let mut seen = vec![false; w.objs.len()];
+                    let mut work = vec![t];
+                    seen[t as usize] = true;
+                    let mut reach_from_t = vec![];
+                    while let Some(x) = work.pop() {
+                        reach_from_t.push(x);
+                        for &y in &w.objs[x as usize].held {
+                            if !seen[y as usize] && w.objs[y as usize].state == St::Alive {
+                                seen[y as usize] = true;
+                                work.push(y);
+                            }
+                        }
+                    }
+                    let cands: Vec<ObjId> = reach_from_t.into_iter().filter(|x| owners.contains(x)).collect();
+                    if let Some(&c) = self.rng.pick(&cands) {
+                        o = c;
+                    }
+                }
                 let k = w.objs[o as usize].held.len();
                 let record = match class {
                     Class::NoAdopt => false,
@@ -561,6 +583,34 @@ impl RandGen {
                 }
                 let &r = self.rng.pick(&cands)?;
                 Some(Op::Adopt(r, r))
+            }
+            22 => {
+                // ring maker: k distinct reachable objects, each adopting and storing a handle to the next
+                if reachable_alive.len() < 2 {
+                    return None;
+                }
+                let mut objs = reachable_alive.clone();
+                self.rng.shuffle(&mut objs);
+                let k = 2 + self.rng.below(3.min(objs.len() - 1));
+                objs.truncate(k);
+                let hs = all_hrefs(w);
+                let mut slot = w.handles.len();
+                let mut ops = vec![];
+                for i in 0..k {
+                    let a = objs[i];
+                    let b = objs[(i + 1) % k];
+                    let ha = hs.iter().find(|(h, t)| *t == a && matches!(h, HRef::P(_))).or_else(|| hs.iter().find(|(_, t)| *t == a))?.0;
+                    let hb = hs.iter().find(|(_, t)| *t == b)?.0;
+                    ops.push(Op::Clone(hb));
+                    ops.push(Op::Adopt(ha, HRef::P(slot)));
+                    ops.push(Op::Store(a, slot));
+                    slot += 1;
+                }
+                let first = ops.remove(0);
+                for o in ops {
+                    self.pending.push_back(o);
+                }
+                Some(first)
             }
             _ => {
                 let ws = all_wrefs(w);
